@@ -3,19 +3,30 @@
 package sqlx
 
 // C11 correspondence harness for the user of PeriodicalExecutor that the property's anchors name: the sqlx
-// BulkInserter (dbInserter container, fixed threshold maxBulkRows). One caller, sequential: the interleavings
-// of the executor itself are the business of the harness in core/executors; here the point is that the
-// inserter's container follows the same threshold / RemoveAll contract (rows are handed to Exec exactly once,
-// a batch of exactly maxBulkRows rows when the threshold is reached, the rest on Flush / UpdateOrDelete /
-// UpdateStmt / Wait).
+// BulkInserter (dbInserter container, fixed threshold maxBulkRows, SQL statement assembly with an optional
+// ON DUPLICATE KEY suffix). SEVERAL inserters live in one section (multi-instance: nothing may leak between them),
+// statements with / without suffix / with commas in the suffix / without a column list / malformed ones are
+// parsed by the real parseInsertStmt, UpdateStmt swaps statements, SetResultHandler is toggled.
+// The interleavings of the executor itself are the business of the harness in core/executors; here ONE scenario
+// class is concurrent, because it is the only window in which the inserter's container can alias a batch it has
+// handed out: `gate` blocks Exec, `insbg` lets a helper goroutine fill a second batch (its Add parks until the
+// flusher is free: the batch has left the container but has not been joined into SQL yet), then rows are inserted
+// by the test goroutine, then `open`.
 //
-// ops:  ins <n>   insert n rows (values are consecutive numbers)
-//       flush | upd | stmt     BulkInserter.Flush / UpdateOrDelete / UpdateStmt
-//       wait      executor.Wait(); observation: sizes=<sorted sizes of the Exec'd batches since the last wait>
-//                 rows=<number of distinct rows seen so far> dup=<rows seen twice> bad=<unparsable statements>
-// obs of the other ops: ok
+// ops:  new <k> <s>     inserter k := NewBulkInserter(conn_k, stmts[s])   obs: ok pre=… suf=… fmt=…  | err
+//       ins <k> <n>     n rows on inserter k (row values are consecutive numbers, global)   obs: ok | err
+//       flush <k> | upd <k>      BulkInserter.Flush / UpdateOrDelete        obs: ok
+//       stmt <k> <s>    executor.Wait(); UpdateStmt(stmts[s])               obs: ok pre=… suf=… | err
+//       hand <k>        SetResultHandler(counting handler)                  obs: ok
+//       gate <k> | open <k>      block / unblock conn_k.Exec (open also joins the helper)      obs: ok
+//       insbg <k> <n>   helper goroutine inserts n rows; returns when it is done or its Add has handed a batch over
+//       wait <k>        executor.Wait()
+//                       obs: x=<hash>|<prefix>|<rows>|<suffix> … (one per Exec since the last wait, sorted by first
+//                            row; spaces are '_'; rows compressed a~b)  res=<result-handler calls> bad=<unparsable>
+// (`-` stands for an empty string)
 
 import (
+	"database/sql"
 	"fmt"
 	"sort"
 	"strconv"
@@ -23,42 +34,204 @@ import (
 	"sync"
 	"testing"
 
+	"github.com/zeromicro/go-zero/core/executors"
 	"github.com/zeromicro/go-zero/core/logx"
 	"github.com/zeromicro/go-zero/internal/verifh"
 )
 
+var c11sStmts = []string{
+	"insert into t(a) values (?)",
+	"INSERT INTO t(a) VALUES (?) ON DUPLICATE KEY UPDATE a=VALUES(a)",
+	"insert ignore into t values(?)",
+	"insert into t(a) values (?)   on duplicate key update a = a + 1, b = 2  ",
+	"insert into t(a) values",       // no variables
+	"select 1",                      // no values keyword
+	"insert into t(a, b) values (?)", // columns and variables mismatch
+}
+
+func c11sUS(s string) string {
+	if s == "" {
+		return "-"
+	}
+	return strings.ReplaceAll(s, " ", "_")
+}
+
+func c11sHash(s string) uint32 {
+	h := uint32(7)
+	for i := 0; i < len(s); i++ {
+		h = h*31 + uint32(s[i])
+	}
+	return h
+}
+
+func c11sRows(rs []int) string {
+	if len(rs) == 0 {
+		return "-"
+	}
+	var out []string
+	for i := 0; i < len(rs); {
+		j := i
+		for j+1 < len(rs) && rs[j+1] == rs[j]+1 {
+			j++
+		}
+		if j > i {
+			out = append(out, fmt.Sprintf("%d~%d", rs[i], rs[j]))
+		} else {
+			out = append(out, strconv.Itoa(rs[i]))
+		}
+		i = j + 1
+	}
+	return strings.Join(out, ",")
+}
+
+// c11sParse splits an executed statement into prefix (up to and including the values keyword), the rows
+// "(n)" separated by ", ", and the rest (one separating space removed).
+func c11sParse(q string) (pre string, rows []int, suf string, ok bool) {
+	pos := strings.Index(strings.ToLower(q), "values")
+	if pos < 0 {
+		return "", nil, "", false
+	}
+	pre = q[:pos+len("values")]
+	rest := q[pos+len("values"):]
+	if !strings.HasPrefix(rest, " ") {
+		return pre, nil, rest, false
+	}
+	rest = rest[1:]
+	for {
+		if !strings.HasPrefix(rest, "(") {
+			return pre, rows, rest, false
+		}
+		end := strings.IndexByte(rest, ')')
+		if end < 0 {
+			return pre, rows, rest, false
+		}
+		v, err := strconv.Atoi(rest[1:end])
+		if err != nil {
+			return pre, rows, rest, false
+		}
+		rows = append(rows, v)
+		rest = rest[end+1:]
+		if strings.HasPrefix(rest, ", (") {
+			rest = rest[2:]
+			continue
+		}
+		break
+	}
+	if rest == "" {
+		return pre, rows, "", true
+	}
+	if !strings.HasPrefix(rest, " ") {
+		return pre, rows, rest, false
+	}
+	return pre, rows, rest[1:], true
+}
+
+type c11sExec struct {
+	first int
+	tok   string
+}
+
+type c11sInst struct {
+	bi     *BulkInserter
+	mu     sync.Mutex
+	execs  []c11sExec
+	bad    int
+	res    int
+	gate   chan struct{} // non-nil: Exec blocks until it is closed
+	helper chan struct{} // non-nil: a helper goroutine is inserting
+	handed chan struct{} // the hook container signals a non-empty RemoveAll inside AddTask's critical section
+	hits   int           // threshold hand-overs since the gate was closed
+}
+
+// c11sHook wraps the real dbInserter (sections of the class hook=1): it only reports that a batch has been handed out
+type c11sHook struct {
+	inner executors.TaskContainer
+	in    *c11sInst
+}
+
+func (h *c11sHook) AddTask(task any) bool { return h.inner.AddTask(task) }
+func (h *c11sHook) Execute(tasks any)     { h.inner.Execute(tasks) }
+func (h *c11sHook) RemoveAll() any {
+	v := h.inner.RemoveAll()
+	if vs, ok := v.([]string); ok && len(vs) > 0 {
+		select {
+		case h.in.handed <- struct{}{}:
+		default:
+		}
+	}
+	return v
+}
+
 func c11sGen(r *verifh.Rng) []verifh.Section {
 	var secs []verifh.Section
-	n := verifh.Scale(12, 60)
+	// scripted: every statement of the table, one row each, on its own inserter
+	{
+		var ops []string
+		for s := range c11sStmts {
+			ops = append(ops, fmt.Sprintf("new %d %d", s, s), fmt.Sprintf("ins %d 2", s), fmt.Sprintf("wait %d", s))
+		}
+		secs = append(secs, verifh.Section{Cfg: fmt.Sprintf("kind=sqlx max=%d hook=0", maxBulkRows), Ops: ops})
+	}
+	// scripted + random: a batch that has been handed out but not yet joined into SQL, rows inserted meanwhile
+	for i := verifh.Scale(3, 12); i > 0; i-- {
+		s := r.Pick(0, 1, 3)
+		k1 := r.Pick(1, 1, 2, 7, 999)
+		ops := []string{fmt.Sprintf("new 0 %d", s)}
+		if r.Chance(1, 2) {
+			ops = append(ops, "hand 0")
+		}
+		ops = append(ops, "gate 0", fmt.Sprintf("ins 0 %d", maxBulkRows), fmt.Sprintf("insbg 0 %d", maxBulkRows+r.Pick(0, 0, 3)),
+			fmt.Sprintf("ins 0 %d", k1))
+		if r.Chance(1, 2) {
+			ops = append(ops, "open 0", "wait 0")
+		} else {
+			ops = append(ops, "open 0", fmt.Sprintf("ins 0 %d", r.Pick(1, 5)), "flush 0", "wait 0")
+		}
+		secs = append(secs, verifh.Section{Cfg: fmt.Sprintf("kind=sqlx max=%d hook=1", maxBulkRows), Ops: ops})
+	}
+	n := verifh.Scale(14, 60)
 	for i := 0; i < n; i++ {
 		var ops []string
-		pending := 0
-		for j := r.Range(3, 14); j > 0; j-- {
-			switch x := r.Intn(10); {
+		ninst := r.Range(1, 3)
+		pending := make([]int, ninst)
+		for k := 0; k < ninst; k++ {
+			ops = append(ops, fmt.Sprintf("new %d %d", k, r.Pick(0, 1, 1, 2, 3, 3, 4, 5, 6)))
+		}
+		for j := r.Range(4, 16); j > 0; j-- {
+			k := r.Intn(ninst)
+			switch x := r.Intn(12); {
 			case x < 5:
 				// aim at the threshold: one below, exactly, one above, far above, small
-				k := r.Pick(1, 2, 7, 999, 1000, 1001, 1999, 2000, 2500, maxBulkRows-pending-1, maxBulkRows-pending, maxBulkRows-pending+1)
-				if k <= 0 {
-					k = 1
+				c := r.Pick(1, 2, 7, 999, 1000, 1001, 1999, 2000, 2500, maxBulkRows-pending[k]-1, maxBulkRows-pending[k], maxBulkRows-pending[k]+1)
+				if c <= 0 {
+					c = 1
 				}
-				ops = append(ops, fmt.Sprintf("ins %d", k))
-				pending = (pending + k) % maxBulkRows
+				ops = append(ops, fmt.Sprintf("ins %d %d", k, c))
+				pending[k] = (pending[k] + c) % maxBulkRows
 			case x < 6:
-				ops = append(ops, "flush")
-				pending = 0
+				ops = append(ops, fmt.Sprintf("flush %d", k))
+				pending[k] = 0
 			case x < 7:
-				ops = append(ops, "upd")
-				pending = 0
-			case x < 8:
-				ops = append(ops, "stmt")
-				pending = 0
+				ops = append(ops, fmt.Sprintf("upd %d", k))
+				pending[k] = 0
+			case x < 9:
+				ops = append(ops, fmt.Sprintf("stmt %d %d", k, r.Pick(0, 1, 1, 2, 3, 3, 4, 6)))
+				pending[k] = 0
+			case x < 10:
+				ops = append(ops, fmt.Sprintf("hand %d", k))
+			case x < 11:
+				// a new inserter in the same slot (the old one is waited for first): state must not carry over
+				ops = append(ops, fmt.Sprintf("wait %d", k), fmt.Sprintf("new %d %d", k, r.Pick(0, 1, 3)))
+				pending[k] = 0
 			default:
-				ops = append(ops, "wait")
-				pending = 0
+				ops = append(ops, fmt.Sprintf("wait %d", k))
+				pending[k] = 0
 			}
 		}
-		ops = append(ops, "wait")
-		secs = append(secs, verifh.Section{Cfg: fmt.Sprintf("kind=sqlx max=%d", maxBulkRows), Ops: ops})
+		for k := 0; k < ninst; k++ {
+			ops = append(ops, fmt.Sprintf("wait %d", k))
+		}
+		secs = append(secs, verifh.Section{Cfg: fmt.Sprintf("kind=sqlx max=%d hook=0", maxBulkRows), Ops: ops})
 	}
 	return secs
 }
@@ -67,85 +240,192 @@ func TestVerifC11Sqlx(t *testing.T) {
 	logx.Disable()
 	secs := verifh.Sections(c11sGen)
 	verifh.Run(t, secs, func(cfg verifh.Cfg) (func(op []string) string, func()) {
-		var mu sync.Mutex
-		var sizes []int
-		seen := map[int]int{}
-		bad := 0
-		conn := &mockedConn{}
-		conn.updateCallback = func(query string, args []any) {
-			mu.Lock()
-			defer mu.Unlock()
-			// insert into t(a) values (1), (2), ...
-			low := strings.ToLower(query)
-			pos := strings.Index(low, "values")
-			if pos < 0 {
-				bad++
-				return
-			}
-			n := 0
-			for _, f := range strings.Split(query[pos+len("values"):], ",") {
-				f = strings.TrimSpace(f)
-				f = strings.TrimSuffix(strings.TrimPrefix(f, "("), ")")
-				v, err := strconv.Atoi(strings.TrimSpace(f))
-				if err != nil {
-					bad++
-					continue
-				}
-				seen[v]++
-				n++
-			}
-			sizes = append(sizes, n)
-		}
-		bi, err := NewBulkInserter(conn, "insert into t(a) values (?)")
-		if err != nil {
-			t.Fatal(err)
-		}
+		insts := map[int]*c11sInst{}
+		hook := cfg.Int("hook", 0) == 1
 		next := 1
+		stmtOf := func(i int) (string, bool) {
+			if i < 0 || i >= len(c11sStmts) {
+				return "", false
+			}
+			return c11sStmts[i], true
+		}
+		insert := func(in *c11sInst, n int) bool {
+			for i := 0; i < n; i++ {
+				if err := in.bi.Insert(next); err != nil {
+					return false
+				}
+				next++
+			}
+			return true
+		}
 		step := func(op []string) string {
+			if len(op) < 2 {
+				return "bad-op"
+			}
+			k := verifh.Atoi(op[1])
+			if op[0] == "new" {
+				q, ok := stmtOf(verifh.Atoi(op[2]))
+				if !ok {
+					return "bad-op"
+				}
+				if old := insts[k]; old != nil && old.bi != nil {
+					if old.gate != nil || old.helper != nil {
+						return "skip"
+					}
+					old.bi.executor.Wait()
+				}
+				in := &c11sInst{handed: make(chan struct{}, 1)}
+				conn := &mockedConn{}
+				conn.updateCallback = func(query string, args []any) {
+					in.mu.Lock()
+					g := in.gate
+					in.mu.Unlock()
+					if g != nil {
+						<-g
+					}
+					pre, rows, suf, ok := c11sParse(query)
+					in.mu.Lock()
+					defer in.mu.Unlock()
+					if !ok || len(rows) == 0 {
+						in.bad++
+						return
+					}
+					in.execs = append(in.execs, c11sExec{rows[0], fmt.Sprintf("x=%d|%s|%s|%s", c11sHash(query), c11sUS(pre), c11sRows(rows), c11sUS(suf))})
+				}
+				bi, err := NewBulkInserter(conn, q)
+				if err != nil {
+					insts[k] = &c11sInst{}
+					return "err"
+				}
+				in.bi = bi
+				if hook {
+					bi.executor = executors.NewPeriodicalExecutor(flushInterval, &c11sHook{inner: bi.inserter, in: in})
+				}
+				insts[k] = in
+				return fmt.Sprintf("ok pre=%s suf=%s fmt=%s", c11sUS(bi.stmt.prefix), c11sUS(bi.stmt.suffix), c11sUS(bi.stmt.valueFormat))
+			}
+			in := insts[k]
+			if in == nil || in.bi == nil {
+				return "skip"
+			}
 			switch op[0] {
 			case "ins":
-				for i := verifh.Atoi(op[1]); i > 0; i-- {
-					if err := bi.Insert(next); err != nil {
-						return "err"
+				hits := (len(in.bi.inserter.values) + verifh.Atoi(op[2])) / maxBulkRows
+				if in.gate != nil {
+					// the flusher takes ONE batch and then sits in the blocked Exec: a second hand-over would park the
+					// test goroutine for good
+					if !(hits == 0 || (hits == 1 && in.hits == 0)) {
+						return "skip"
 					}
-					next++
+					in.hits += hits
 				}
-				return "ok"
-			case "flush":
-				bi.Flush()
-				return "ok"
-			case "upd":
-				bi.UpdateOrDelete(func() {})
-				return "ok"
-			case "stmt":
-				if err := bi.UpdateStmt("insert into t(a) values (?)"); err != nil {
+				if !insert(in, verifh.Atoi(op[2])) {
 					return "err"
 				}
 				return "ok"
-			case "wait":
-				bi.executor.Wait()
-				mu.Lock()
-				defer mu.Unlock()
-				sort.Ints(sizes)
-				ss := make([]string, len(sizes))
-				for i, s := range sizes {
-					ss[i] = strconv.Itoa(s)
+			case "insbg":
+				if !hook || in.gate == nil || in.helper != nil || in.hits != 1 {
+					return "skip"
 				}
-				sizes = nil
-				dup := 0
-				for _, c := range seen {
-					if c > 1 {
-						dup++
+				n := verifh.Atoi(op[2])
+				base := next
+				next += n
+				done := make(chan struct{})
+				in.helper = done
+				select {
+				case <-in.handed:
+				default:
+				}
+				go func() {
+					defer close(done)
+					for i := 0; i < n; i++ {
+						_ = in.bi.Insert(base + i)
 					}
+				}()
+				select {
+				case <-done:
+				case <-in.handed:
+					in.hits++
 				}
-				sz := "-"
-				if len(ss) > 0 {
-					sz = strings.Join(ss, ",")
+				return "ok"
+			case "gate":
+				if in.gate != nil {
+					return "skip"
 				}
-				return fmt.Sprintf("sizes=%s rows=%d dup=%d bad=%d", sz, len(seen), dup, bad)
+				in.mu.Lock()
+				in.gate = make(chan struct{})
+				in.mu.Unlock()
+				in.hits = 0
+				return "ok"
+			case "open":
+				if in.gate == nil {
+					return "skip"
+				}
+				in.mu.Lock()
+				close(in.gate)
+				in.gate = nil
+				in.mu.Unlock()
+				if in.helper != nil {
+					<-in.helper
+					in.helper = nil
+				}
+				in.hits = 0
+				return "ok"
+			}
+			if in.gate != nil {
+				return "skip" // Flush / Wait would park behind the gate
+			}
+			switch op[0] {
+			case "flush":
+				in.bi.Flush()
+				return "ok"
+			case "upd":
+				in.bi.UpdateOrDelete(func() {})
+				return "ok"
+			case "hand":
+				// batches already handed to the flusher read dbInserter.resultHandler when Exec returns: let them finish
+				in.bi.executor.Wait()
+				in.bi.SetResultHandler(func(_ sql.Result, _ error) {
+					in.mu.Lock()
+					in.res++
+					in.mu.Unlock()
+				})
+				return "ok"
+			case "stmt":
+				q, ok := stmtOf(verifh.Atoi(op[2]))
+				if !ok {
+					return "bad-op"
+				}
+				// batches already handed to the flusher read dbInserter.stmt when they are executed: let them finish
+				in.bi.executor.Wait()
+				if err := in.bi.UpdateStmt(q); err != nil {
+					return "err"
+				}
+				return fmt.Sprintf("ok pre=%s suf=%s", c11sUS(in.bi.inserter.stmt.prefix), c11sUS(in.bi.inserter.stmt.suffix))
+			case "wait":
+				in.bi.executor.Wait()
+				in.mu.Lock()
+				defer in.mu.Unlock()
+				sort.Slice(in.execs, func(i, j int) bool { return in.execs[i].first < in.execs[j].first })
+				var toks []string
+				for _, e := range in.execs {
+					toks = append(toks, e.tok)
+				}
+				in.execs = nil
+				toks = append(toks, fmt.Sprintf("res=%d bad=%d", in.res, in.bad))
+				return strings.Join(toks, " ")
 			}
 			return "bad-op"
 		}
-		return step, func() { bi.executor.Wait() }
+		return step, func() {
+			for _, in := range insts {
+				if in != nil && in.bi != nil {
+					if in.gate != nil {
+						close(in.gate)
+					}
+					in.bi.executor.Wait()
+				}
+			}
+		}
 	})
 }
